@@ -1803,7 +1803,12 @@ class _PPTableImpl:
 
     def remove_columns(self, columns_names):
         """Remove columns from table."""
-        self._ppt_fmt.remove_columns(columns_names)
+        # similar to set_fmt: new format object is created, so that widths of
+        # the remaining columns be detected again (removal of a 'break_by'
+        # column changes the set of visible records if lines limits are set)
+        new_fmt_obj = self._ppt_fmt.clone()
+        new_fmt_obj.remove_columns(columns_names)
+        self._ppt_fmt = new_fmt_obj
 
     def gen_ch_lines(self, cp: PPTable.TablePalette) -> Iterator[CHText]:
         """Generate CHText objects - lines of the printed table"""
